@@ -1,17 +1,151 @@
-(* C13 -- concurrent parameter updates / parameter reads / artifact generation are linearizable.
-   Statements only; proofs live in Graph/LockProofs.v.  (work in progress: the semantic theorems follow) *)
-From Coq Require Import List NArith Arith Bool String.
-From PF Require Import Graph.Lock Graph.LockProofs.
+(* C13 -- concurrent parameter updates, parameter reads and artifact generation are linearizable.
+   Statements only; proofs live in Graph/LockProofs.v (history level) and Graph/LockSemProofs.v (semantics).
+
+   Reading guide (definitions in Graph/Lock.v):
+     op / resp / seq_step   the sequential specification: Update p v, BadUpdate p (malformed message: value kept,
+                            version bumped), Get p, Artifact f (f = the parameters the producer's text lists)
+     step G c t             small-step interleaving semantics: thread t takes one step; every call is
+                            Inv; [Acquire;] body split into single shared-memory accesses [; Release]; Resp, the
+                            bracket being present exactly when G says the entry point is guarded
+     guard_of fs            G computed from the lock facts fs that tools/lockfacts extracts from
+                            generator/graph/instance.go of the tree under check (coq/gen/LockFacts.v)
+     reach G c0 c tr        c is reachable from c0 by the trace tr (any number of threads, any programs)
+     call                   completed call with invocation / response stamps from the one shared clock
+     linearizable s cs      some permutation of cs is a legal sequential execution from s and never puts a call
+                            before one that had responded before it was invoked
+     linb                   the executable checker the recorded histories of the real runs are judged by *)
+From Coq Require Import List NArith Arith Bool String Sorting.Permutation.
+From PF Require Import Graph.Lock Graph.LockProofs Graph.LockSemProofs.
 From PFGen Require LockFacts.
 Import ListNotations.
 
-(* the lock facts extracted from generator/graph/instance.go of the tree under check satisfy the discipline
-   the semantics is parametrised by: this is re-established by computation on every run *)
+(* (T) The lock facts of the tree under check satisfy the discipline: Lock() first (after local computation that
+   touches no field written in a critical section), `defer Unlock()` next, no other mention of the mutex, no
+   goroutine / closure, callees do not touch the mutex.  Re-established by computation on every run. *)
 Theorem lock_facts_hold : lock_facts_ok LockFacts.facts = true.
 Proof. vm_compute. reflexivity. Qed.
 Print Assumptions lock_facts_hold.
 
-(* the finite history checker used on the real runs decides linearizability *)
+(* Mutual exclusion is an invariant of the semantics, whatever the guards are: a thread is inside a critical
+   section (has acquired, not yet released) exactly when it holds the lock, so at most one thread is. *)
+Theorem mutex_invariant : forall G s programs c tr,
+  reach G (init_config s programs) c tr ->
+  (forall t, in_cs c t <-> c_lock c = Some t) /\ (forall t u, in_cs c t -> in_cs c u -> t = u).
+Proof.
+  intros G s programs c tr H. split.
+  - exact (lock_held_iff_in_cs G s programs c tr H).
+  - exact (mutex G s programs c tr H).
+Qed.
+Print Assumptions mutex_invariant.
+
+(* For every number of threads, every program and every interleaving: if the lock facts hold, the completed
+   calls of the trace, together with some of the calls still in flight (each completed with the current time as
+   its response stamp), have a sequential order that respects real-time precedence and in which every response
+   equals the sequential specification's response.  (Linearization point = the Acquire step.) *)
+Theorem coarse_lock_linearizable : forall fs s programs c tr,
+  lock_facts_ok fs = true ->
+  reach (guard_of fs) (init_config s programs) c tr ->
+  exists inflight,
+    Forall (pending_call c) inflight /\
+    exists order,
+      Permutation order (calls_of tr ++ inflight) /\ legal s order /\ rt_ok order.
+Proof. exact coarse_lock_linearizable_proof. Qed.
+Print Assumptions coarse_lock_linearizable.
+
+(* ... in particular for the tree under check, and with nothing in flight: *)
+Theorem coarse_lock_linearizable_checked_tree : forall s programs c tr,
+  reach (guard_of LockFacts.facts) (init_config s programs) c tr -> quiescent c ->
+  linearizable s (calls_of tr).
+Proof.
+  intros s programs c tr H Q. eapply guarded_linearizable_quiescent; eauto.
+  apply lock_facts_guard. exact lock_facts_hold.
+Qed.
+Print Assumptions coarse_lock_linearizable_checked_tree.
+
+(* Consequence for artifacts: every artifact read returns the from-scratch evaluation of ONE parameter state --
+   the state after a legal sequential execution [before] of other calls of the run (no mixture of two states) --
+   and every call that had responded before the read was invoked is part of [before] (it cannot be in [after]):
+   the artifact is never older than an update completed before the read began. *)
+Theorem artifact_one_snapshot_not_stale : forall fs s programs c tr x f,
+  lock_facts_ok fs = true ->
+  reach (guard_of fs) (init_config s programs) c tr -> quiescent c ->
+  In x (calls_of tr) -> c_op x = Artifact f ->
+  exists before after,
+    Permutation (before ++ x :: after) (calls_of tr) /\ legal s before /\
+    c_resp x = RArt (map (st_vals (run_calls s before)) f) /\
+    Forall (fun u => c_inv x < c_res u) after.
+Proof.
+  intros fs s programs c tr x f HF HR HQ Hin Hop.
+  eapply artifact_snapshot; eauto. eapply guarded_linearizable_quiescent; eauto.
+  apply lock_facts_guard. exact HF.
+Qed.
+Print Assumptions artifact_one_snapshot_not_stale.
+
+(* the same for ParameterData *)
+Theorem parameter_read_one_snapshot_not_stale : forall fs s programs c tr x p,
+  lock_facts_ok fs = true ->
+  reach (guard_of fs) (init_config s programs) c tr -> quiescent c ->
+  In x (calls_of tr) -> c_op x = Get p ->
+  exists before after,
+    Permutation (before ++ x :: after) (calls_of tr) /\ legal s before /\
+    c_resp x = RGet (st_vals (run_calls s before) p) /\
+    Forall (fun u => c_inv x < c_res u) after.
+Proof.
+  intros fs s programs c tr x p HF HR HQ Hin Hop.
+  eapply get_snapshot; eauto. eapply guarded_linearizable_quiescent; eauto.
+  apply lock_facts_guard. exact HF.
+Qed.
+Print Assumptions parameter_read_one_snapshot_not_stale.
+
+(* What the lock buys (not about the checked tree): if the lock fact of Artifact were false while UpdateParameter
+   is guarded, two threads suffice for an artifact that is the evaluation of none of the states that ever
+   existed, and the run is not linearizable. *)
+Theorem unlocked_artifact_refuted : forall fs,
+  entry_ok fs "Artifact" = false -> entry_ok fs "UpdateParameter" = true ->
+  exists c tr x,
+    reach (guard_of fs) (init_config mix_init mix_programs) c tr /\ quiescent c /\
+    List.length mix_programs = 2 /\
+    In x (calls_of tr) /\ c_op x = Artifact [0; 1] /\
+    Forall (fun st => c_resp x <> RArt (map (st_vals st) [0; 1])) mix_states /\
+    ~ linearizable mix_init (calls_of tr).
+Proof.
+  intros fs HA HU.
+  destruct (unlocked_artifact_mixed_snapshot (guard_of fs)) as [c [tr [x H]]].
+  - intro f. exact HA.
+  - intros p v. exact HU.
+  - exists c, tr, x. intuition.
+Qed.
+Print Assumptions unlocked_artifact_refuted.
+
+(* ... and if the lock fact of UpdateParameter were false, two concurrent updates both succeed but the model
+   version is bumped once instead of twice. *)
+Theorem unlocked_update_refuted : forall fs,
+  entry_ok fs "UpdateParameter" = false ->
+  exists c tr,
+    reach (guard_of fs) (init_config mix_init lost_programs) c tr /\ quiescent c /\
+    List.length (calls_of tr) = 2 /\ Forall (fun x => c_resp x = RUpd true) (calls_of tr) /\
+    c_ver c = 1%N /\ st_ver (run_calls mix_init (calls_of tr)) = 2%N.
+Proof.
+  intros fs HU. apply (unlocked_update_loses_version (guard_of fs)). intros p v. exact HU.
+Qed.
+Print Assumptions unlocked_update_refuted.
+
+(* The finite history checker used on the real runs decides linearizability. *)
 Theorem lin_checker_sound_complete : forall s cs, linb s cs = true <-> linearizable s cs.
 Proof. exact linb_iff. Qed.
 Print Assumptions lin_checker_sound_complete.
+
+(* Non-vacuity: under the extracted facts of the checked tree a reader (one artifact listing p0, p1) and a
+   writer (two updates) interleave -- the writer's invocation falls inside the reader's critical section -- the
+   run reaches quiescence, the artifact is the initial snapshot [0;0] and the verified checker accepts it. *)
+Example guarded_run_example :
+  let sched := [0; 0; 0; 1; 0; 0; 0] ++ repeat 1 6 ++ repeat 1 7 in
+  exists c tr,
+    run (guard_of LockFacts.facts) mix_init mix_programs sched = Some (c, tr) /\
+    (forall t, ts_cur (c_thr c t) = Idle) /\
+    map c_resp (calls_of tr) = [RUpd true; RUpd true; RArt [0%N; 0%N]] /\
+    linb mix_init (calls_of tr) = true.
+Proof.
+  eexists. eexists. split; [vm_compute; reflexivity|].
+  split; [intros [|[|t]]; vm_compute; reflexivity|]. split; vm_compute; reflexivity.
+Qed.
